@@ -101,7 +101,7 @@ def bins(start, stop, fmt="gff", one=True):
     # Some GFF files include negative coords, which will throw off this
     # calculation.  If negative coords, then set the bin to the largest
     # possible.
-    if start < 0:
+    if start < COORD_OFFSETS[fmt]:
         if one:
             return 1
         else:
